@@ -33,7 +33,7 @@ SPECS = [None, "ID", "Name", ["ID", "Name"], ["Name", "ID"], {"gene": "ID", "exo
 
 def budget(tier):
     if tier == "quick":
-        return {"runs": 3000, "wall": 50, "chunk": 8}
+        return {"runs": 2400, "wall": 50, "chunk": 8}
     return {"runs": 100000, "wall": 1500, "chunk": 8}
 
 
@@ -79,7 +79,8 @@ def gen(rng, tier):
             feats = G.gtf_annotation(rng, {"max_genes": 2, "explicit_tx": rng.random() < 0.5, "explicit_gene": rng.random() < 0.5})
         steps = [{"op": "create", "feats": feats, "form": "path"}]
     steps.append({"op": rng.choice(["reopen", "restart", "none"])})
-    return {"fmt": fmt, "id_spec": spec, "steps": steps, "qseed": rng.getrandbits(32)}
+    return {"fmt": fmt, "id_spec": spec, "steps": steps, "qseed": rng.getrandbits(32),
+            "fault_profile": rng.random() < 0.1, "fault_seed": rng.getrandbits(32)}
 
 
 def run(case):
@@ -94,6 +95,7 @@ def run(case):
     d_ = G.DEFAULT_GFF3 if fmt == "gff3" else G.DEFAULT_GTF
     qrng = random.Random(case["qseed"])
     auto_seen = attr_seen = False
+    multi_rejected = False
     with World("c04_") as w:
         def call(n, op):
             r = w.call(n, op)
@@ -173,6 +175,7 @@ def run(case):
                                   kind="not_rejected"))
                 else:
                     probes["multi_valued_id_rejected"] = probes.get("multi_valued_id_rejected", 0) + 1
+                multi_rejected = True
                 break
             if not r["ok"]:
                 V.append(viol("C04.keys", "%s with id_spec=%r raised %s: %s" % (k, spec, r["exc"], r["msg"]), kind="import_failed",
@@ -217,6 +220,17 @@ def run(case):
                         key, "a feature " + str(g.get("f", {}).get("id")) if g["ok"] else g["exc"]), kind="absent_key"))
                     break
         out["stats"] = w.stats
+    if case.get("fault_profile") and fmt == "gff3" and not V and not out.get("discarded") and not multi_rejected:
+        # the id counters under faults: source failure positions / sql error / cancel / crash in an update, then
+        # reopen or restart and a further update - keys must continue and never be reused
+        from checks import c10
+        steps = [dict(s, strategy="create_unique") for s in case["steps"] if s["op"] in ("create", "update", "reopen", "restart", "gc")]
+        vs, st2, pr2 = c10.fault_profile(steps, {"id_spec": spec}, case["fault_seed"], "C04.faulted")
+        V.extend(vs)
+        c10._merge_stats(out["stats"], st2)
+        for k2, v2 in pr2.items():
+            probes["faulted_" + k2] = probes.get("faulted_" + k2, 0) + v2
+        journal.append(("fault_profile", len(vs)))
     out["trace_hash"] = core.digest(journal)
     out["nontrivial"] = auto_seen and attr_seen
     out["sample"] = {"id_spec": spec, "fmt": fmt,
